@@ -1,9 +1,10 @@
 #!/bin/bash
 # usage: selftest.sh <tier> <seed...>   runs every check at the given seeds on /repo and prints anything that is not OK
 TIER=$1; shift
+HERE=$(cd "$(dirname "$0")" && pwd)
 for s in "$@"; do
-  for p in $(python3 -c "import sys; sys.path.insert(0,'/verif'); from checks_table import PROPS; print(' '.join(sorted(PROPS)))"); do
-    out=$(VERIF_SEED=$s /verif/check $p $TIER 2>&1); rc=$?
+  for p in $(python3 -c "import sys; sys.path.insert(0,'$HERE'); from checks_table import PROPS; print(' '.join(sorted(PROPS)))"); do
+    out=$(VERIF_SEED=$s $HERE/check $p $TIER 2>&1); rc=$?
     line=$(echo "$out" | grep -E "^(OK|VIOLATION|INFRA)" | tail -1)
     if [ $rc -ne 0 ]; then echo "seed=$s $p rc=$rc :: $line"; echo "$out" | grep -v "rapid\] draw" | tail -15; else echo "seed=$s $line"; fi
   done
